@@ -350,6 +350,7 @@ ENUM_VARIANTS = {
     'std::ops::ControlFlow': ['Continue', 'Break'],
     'std::borrow::Cow': ['Borrowed', 'Owned'],
     'std::net::SocketAddr': ['V4', 'V6'],
+    'std::net::IpAddr': ['V4', 'V6'],
 }
 
 
@@ -525,7 +526,7 @@ def unescape(s):
 
 BINOPS = {'Eq', 'Ne', 'Lt', 'Le', 'Gt', 'Ge', 'Add', 'Sub', 'Mul', 'AddWithOverflow', 'SubWithOverflow',
           'MulWithOverflow', 'BitAnd', 'BitOr', 'BitXor', 'Shl', 'Shr', 'Offset', 'Div', 'Rem', 'Cmp',
-          'AddUnchecked', 'SubUnchecked'}
+          'AddUnchecked', 'SubUnchecked', 'ShrUnchecked', 'ShlUnchecked'}
 UNOPS = {'Not', 'Neg'}
 
 
@@ -1040,32 +1041,45 @@ class Exec:
             if is_c(a) and is_c(b):
                 return {'BitAnd': a & b, 'BitOr': a | b, 'BitXor': a ^ b}[op]
             return self.bitop(op, a, b, ty)
+        if op in ('Shr', 'Shl', 'ShrUnchecked', 'ShlUnchecked') and is_c(b) and ty in INT_BITS and not ty.startswith('i'):
+            if is_c(a):
+                return (a >> b) if op.startswith('Shr') else ((a << b) & hi)
+            if op.startswith('Shr'):
+                return Z(a) / (2 ** b)
+            return (Z(a) * (2 ** b)) % (hi + 1)
         raise Unsupported('binop ' + op)
 
     def bitop(self, op, a, b, ty):
-        """bit operations on u8 values with one constant mask / disjoint nibbles (via div/mod)"""
-        if ty != 'u8':
+        """bit operations on unsigned values through div/mod: AND with a contiguous-bit mask, OR/XOR bitwise
+        for u8, OR of values with disjoint constant ranges"""
+        bits = INT_BITS.get(ty)
+        if bits is None or (ty or '').startswith('i'):
             raise Unsupported('symbolic %s on %s' % (op, ty))
-        if op == 'BitAnd' and is_c(b):
-            if b == 0xF0:
-                return mul(Z(a) / 16, 16)
-            if b == 0x0F:
-                return Z(a) % 16
-            if b == 0xFF:
-                return a
         if op == 'BitAnd' and is_c(a):
-            return self.bitop(op, b, a, ty)
-        if op == 'BitOr':
-            # general 8-bit OR through bits
-            def bits(x):
-                return [(Z(x) / (2 ** i)) % 2 if not is_c(x) else (x >> i) & 1 for i in range(8)]
-            ba, bb = bits(a), bits(b)
+            a, b = b, a
+        if op == 'BitAnd' and is_c(b):
+            mask = b
+            if mask == 0:
+                return 0
+            lo = (mask & -mask).bit_length() - 1
+            hi = mask.bit_length()
+            if mask == ((1 << hi) - 1) ^ ((1 << lo) - 1):
+                # contiguous mask: bits [lo, hi)
+                return mul((Z(a) / (2 ** lo)) % (2 ** (hi - lo)), 2 ** lo)
+            raise Unsupported('BitAnd with a non-contiguous mask 0x%x' % mask)
+        if op in ('BitOr', 'BitXor') and bits <= 16:
+            def bit(x, i):
+                return (Z(x) / (2 ** i)) % 2 if not is_c(x) else (x >> i) & 1
             r = 0
-            for i in range(8):
-                bit = ite(or_(eq(ba[i], 1), eq(bb[i], 1)), 1, 0)
-                r = add(r, mul(bit, 2 ** i))
+            for i in range(bits):
+                x, y = bit(a, i), bit(b, i)
+                if op == 'BitOr':
+                    v = ite(or_(eq(x, 1), eq(y, 1)), 1, 0)
+                else:
+                    v = ite(ne(x, y), 1, 0)
+                r = add(r, mul(v, 2 ** i))
             return r
-        raise Unsupported('symbolic %s' % op)
+        raise Unsupported('symbolic %s on %s' % (op, ty))
 
     # ---- terminators
     def term(self, t, frame):
